@@ -136,6 +136,8 @@ def cases_for(spec, variant=None, limit=400, seed=0, extra_vals=()):
         names.append((name, ty))
         if ty.startswith("net:"):
             doms.append(NETS[ty[4:]])
+        elif ty.startswith("view:"):
+            doms.append(NETS[ty.split(":")[2]])
         elif ty == "bool":
             doms.append([["b", False], ["b", True]])
         elif ty == "int":
@@ -169,7 +171,7 @@ def cases_for(spec, variant=None, limit=400, seed=0, extra_vals=()):
             combos = [tuple(pool[j % len(pool)] if i == free[0] else v for i, v in enumerate(c)) for j, c in enumerate(combos)]
     # state-dependent arguments: ids and id lists drawn from the chosen network make preconditions such as
     # "bunch within the network" / "n is a node" hold far more often than independent draws
-    net_idx = [i for i, (n, ty) in enumerate(names) if ty.startswith("net:")]
+    net_idx = [i for i, (n, ty) in enumerate(names) if ty.startswith(("net:", "view:"))]
     if total > limit and net_idx:
         adapted = []
         nstrat = len(doms[free[0]]) if free else 0
@@ -212,7 +214,7 @@ def cases_for(spec, variant=None, limit=400, seed=0, extra_vals=()):
     for combo in combos:
         params, state = [], {}
         for (name, ty), v in zip(names, combo):
-            if ty.startswith("net:"):
+            if ty.startswith(("net:", "view:")):
                 state[name] = v
                 params.append([name, ty, None])
             else:
